@@ -509,6 +509,7 @@ def pipeline(mod, ctx):
     ctx.extra_cov["configurations_by_mode"] = modes
     ctx.extra_cov["exact_runs_validated_by_tlc"] = sum(len(r.get("runs", [])) for r in recs)
     ctx.extra_cov["tolerance_monitors_validated_by_tlc"] = sum(len(r.get("mons", [])) for r in recs)
-    ctx.extra_cov["largest_monitor_value_1e-13"] = max([abs(m["d"]) for r in recs for m in r.get("mons", [])] or [0])
+    # two-sided monitors: |d| ; one-sided ("never increases"): only the positive part counts
+    ctx.extra_cov["largest_monitor_excess_1e-13"] = max([abs(m["d"]) if m["two"] else max(m["d"], 0) for r in recs for m in r.get("mons", [])] or [0])
     ctx.extra_cov["tolerance_1e-13"] = max([r.get("tol", 0) for r in recs] or [0])
     ctx.validate(*mod.TRACE, recs, {c["id"]: c for c in inputs}, classify=getattr(mod, "classify", None), chunk=getattr(mod, "CHUNK", 400))
